@@ -147,14 +147,6 @@ Proof.
   unfold inv. cbn [fst snd sorted_le]. split; [|exact H2]. rewrite !app_length, L. lia.
 Qed.
 
-Lemma insert_n_ok : forall k e ch b, (e <= length b)%nat ->
-  exists b', insert_n k e ch b = Ok b' /\ (length b <= length b')%nat.
-Proof.
-  induction k as [|k IH]; intros e ch b H; [exists b; split; [reflexivity|lia]|].
-  cbn [insert_n]. destruct (insert_at_ok e ch b H) as [b1 [E L]]. rewrite E. cbn [obind].
-  destruct (IH e ch b1) as [b' [E' L']]; [lia|]. exists b'. split; [exact E'|lia].
-Qed.
-
 (* ------------------------------------------------------------------ the function arm *)
 Fixpoint asc (l : list nat) : Prop :=
   match l with a :: ((b :: _) as t) => (a <= b)%nat /\ asc t | _ => True end.
@@ -237,6 +229,13 @@ Proof.
   intros j c H. rewrite (app_removelast_last 0 H) at 2. rewrite !app_length. reflexivity.
 Qed.
 
+Lemma pop_comma_length : forall (j : list N) c, j <> [] -> (length j <= length (pop_comma j ++ [c]))%nat.
+Proof.
+  intros j c H. unfold pop_comma. destruct (last j 0 =? ch_comma).
+  - rewrite (removelast_snoc_length j c H). lia.
+  - rewrite app_length. cbn [length]. lia.
+Qed.
+
 Lemma safe_func_apply : forall strict iftab argc s, inv s ->
   safe (func_apply strict iftab argc s) inv.
 Proof.
@@ -258,22 +257,42 @@ Proof.
     { exfalso. apply existsb_exists in Ex. destruct Ex as [x [Hx Hlt]]. apply Nat.ltb_lt in Hlt.
       pose proof (asc_hd_min args' start Hasc x Hx). lia. }
     destruct (split_off_ok start buf Hsb) as [Es Ls]. rewrite Es. cbn [obind fst snd].
-    destruct (nthN Tables.FTAB iftab) as [nm|]; [|destruct strict; exact I]. cbn [obind].
     set (fargs := skipn start buf).
     assert (Lf : length fargs = (length buf - start)%nat) by (unfold fargs; apply skipn_length).
-    destruct (windows_join_ok fargs (map (fun o => (o - start)%nat) (start :: args') ++ [length fargs])
-                (firstn start buf ++ nm ++ [ch_lpar])) as [j [Ej Lj]].
+    set (rel' := map (fun o => (o - start)%nat) (start :: args') ++ [length fargs]).
+    assert (Hasc' : asc rel').
     { apply asc_snoc; [apply asc_map_sub; exact Hasc|].
       intros x Hx. apply in_map_iff in Hx. destruct Hx as [o [<- Ho]].
       pose proof (sorted_le_all l _ Hl o (Hin o Ho)). lia. }
+    assert (Hbnd : forall x, In x rel' -> (x <= length fargs)%nat).
     { intros x Hx. apply in_app_or in Hx. destruct Hx as [Hx|[<-|[]]]; [|lia].
       apply in_map_iff in Hx. destruct Hx as [o [<- Ho]].
       pose proof (sorted_le_all l _ Hl o (Hin o Ho)). lia. }
-    rewrite Ej. cbn [obind safe]. unfold inv. cbn [fst snd sorted_le].
-    rewrite !app_length in Lj. cbn [length] in Lj.
-    assert (Hj : j <> []) by (intros ->; cbn in Lj; lia).
-    rewrite (removelast_snoc_length j ch_rpar Hj). split; [lia|].
-    rewrite Ls. apply (sorted_le_skipn_below argc st (length buf) Hi). exact Hstart.
+    (* whatever text is put in front of the parenthesis, the arm ends in a state satisfying inv *)
+    assert (Hend : forall offs nm, asc offs -> (forall x, In x offs -> (x <= length fargs)%nat) ->
+              safe (do joined <- windows_join fargs offs (firstn start buf ++ nm ++ [ch_lpar]);
+                    Ok (length (firstn start buf) :: skipn argc st, pop_comma joined ++ [ch_rpar])) inv).
+    { intros offs nm Ho Hb.
+      destruct (windows_join_ok fargs offs (firstn start buf ++ nm ++ [ch_lpar]) Ho Hb) as [j [Ej Lj]].
+      rewrite Ej. cbn [obind safe]. unfold inv. cbn [fst snd sorted_le].
+      rewrite !app_length in Lj. cbn [length] in Lj.
+      assert (Hj : j <> []) by (intros ->; cbn in Lj; lia).
+      pose proof (pop_comma_length j ch_rpar Hj) as Hp. split; [lia|].
+      rewrite Ls. apply (sorted_le_skipn_below argc st (length buf) Hi). exact Hstart. }
+    destruct (iftab =? 255).
+    + (* tab 0x00FF: the first window is the name *)
+      destruct rel' as [|w0 [|w1 rest]] eqn:Erel.
+      * apply (Hend [] []); [exact I|intros x []].
+      * apply (Hend [w0] []); [exact I|exact Hbnd].
+      * cbn [asc] in Hasc'. destruct Hasc' as [H01 Hrest].
+        assert (Hw1 : (w1 <= length fargs)%nat) by (apply Hbnd; right; left; reflexivity).
+        unfold slice_w.
+        assert (E : ((w0 <=? w1) && (w1 <=? length fargs))%nat = true)
+          by (apply andb_true_intro; split; apply Nat.leb_le; lia).
+        rewrite E. cbn [obind].
+        apply (Hend (w1 :: rest)); [exact Hrest|]. intros x Hx. apply Hbnd. right. exact Hx.
+    + destruct (nthN Tables.FTAB iftab) as [nm|]; [|destruct strict; exact I]. cbn [obind].
+      apply (Hend rel' nm); assumption.
 Qed.
 
 Lemma ftab_argc_some : forall iftab, iftab < Tables.FTAB_LEN -> exists a, nthN Tables.FTAB_ARGC iftab = Some a.
@@ -349,14 +368,7 @@ Proof.
     try exact I; cbn [fst snd];
     try (reads; try finish; fail).
   all: try (reads; apply safe_attrsum; exact Hi).
-  all: try (reads; eapply safe_bind; [apply drop_err_safe with (Q := fun _ => True); auto|]; intros ? _; finish).
-  all: destruct st as [|e st']; [exact I|]; reads.
-  all: repeat match goal with |- context [match ?q with _ => _ end] => is_var q; destruct q end;
-       cbn [obind]; try exact I; reads.
-  all: unfold inv in Hi; cbn [fst snd sorted_le] in Hi; destruct Hi as [Hn0 Hn1];
-       match goal with |- context [insert_n ?k ?e ?ch ?b] =>
-         destruct (insert_n_ok k e ch b Hn0) as [b' [-> Lb]] end; cbn [obind]; reads;
-       cbn [safe]; unfold okst, inv; cbn [snd fst sorted_le]; split; [lia|exact Hn1].
+  all: reads; eapply safe_bind; [apply drop_err_safe with (Q := fun _ => True); auto|]; intros ? _; finish.
 Qed.
 
 Lemma safe_xlsb_ptgstr : forall (rgce : list N) s, (2 <= length rgce)%nat -> inv s ->
@@ -371,14 +383,12 @@ Lemma safe_xlsb_attr : forall (rgce : list N) s, (1 <= length rgce)%nat -> inv s
   safe (xlsb_attr rgce s) okst.
 Proof.
   intros rgce [st buf] H Hi. unfold xlsb_attr. reads.
-  destruct (length r <? (if (v =? 4)%N then 10 else 2))%nat eqn:E2; [exact I|]. apply Nat.ltb_ge in E2.
-  assert (E2' : (2 <= length r)%nat) by (destruct (v =? 4); lia).
-  destruct (v =? 4) eqn:E4.
-  - apply N.eqb_eq in E4. subst v. cbn iota. reads. finish.
-  - repeat match goal with |- context [match ?q with _ => _ end] => is_var q; destruct q end;
-      try exact I; try discriminate E4; cbn [fst snd];
-      try (reads; try finish; fail).
-    all: reads; apply safe_attrsum; exact Hi.
+  destruct (length r <? 2)%nat eqn:E2; [exact I|]. apply Nat.ltb_ge in E2.
+  repeat match goal with |- context [match ?q with _ => _ end] => is_var q; destruct q end;
+    try exact I; cbn [fst snd];
+    try (reads; try finish; fail).
+  all: try (reads; apply safe_attrsum; exact Hi).
+  all: reads; eapply safe_bind; [apply drop_err_safe with (Q := fun _ => True); auto|]; intros ? _; finish.
 Qed.
 
 (* ------------------------------------------------------------------ one token *)
